@@ -32,6 +32,20 @@ CHECKS = {
               "code's own dependency. Bounded: reduced forms with diagonal <= 3 (quick) / 5 (thorough), grid 1/2 "
               "or 1/4; impl lattices U G U^T with |U| <= 6; 32-bit overflow guarded by the generator."),
         design="5/C05"),
+    "C06": dict(
+        text=("Commensurate.tla defines the commensurate set of S (all n/N with S^T n = 0 mod N), and TLC checks for "
+              "every S met the counting theorem |CommSet| = |det S|, closure under negation and the perfect pairing "
+              "with Z^3/SZ^3 (r in SZ^3 iff q.r integral for all commensurate q) - the character orthogonality that "
+              "makes the inverse transform exact. Recorded outputs of get_commensurate_points, "
+              "get_commensurate_points_in_integers and categorize_commensurate_points for ~650 (quick) / thousands "
+              "(thorough) of matrices, and the point sets actually used by DynmatToForceConstants objects, are "
+              "validated against it (count, distinct, integral, complete, both constructions agree, partition). "
+              "Spec-to-code: exact spring-model force constants (TLC-computed) and random periodic symmetric arrays "
+              "go through the real forward and inverse transforms (C and Python, full and compact, non-diagonal and "
+              "centred supercells) and through Phonopy.ph2ph; results must return to 1e-9."),
+        note=("Trusted: TLC, numpy, the oracle realisation (validated). The exactness argument needs svec congruence, "
+              "which is C05/C02's statement. Bounded: det S <= 8; 14 crystal x supercell round-trip scenarios."),
+        design="5/C06"),
 }
 
 NOT_BUILT = "check under construction in this round; not yet claimed"
